@@ -8,6 +8,14 @@
 //!       or duplicated; nothing is down at the end;
 //!   I3  the per-tick output equals the tap-hold reference model (DESIGN.md appendix E.2), and, for
 //!       the "no other input" clause, the statement is checked directly on the stream.
+//!
+//! Parts 1 (exhaustive, one tap-hold key, model) and 2 (random, two tap-hold keys, I1/I2) are in this
+//! file. In both only ONE tap-hold is ever undecided at a time (a second tap-hold key just waits in the
+//! input queue). Parts 3 (systematic) and 4 (random) in `c05_multi.rs` cover the configurations in which
+//! SEVERAL tap-holds are undecided together (keys of a `defchords` group whose single-key entries are
+//! tap-holds and that decompose; a `switch` with several tap-hold cases; a `defchordsv2` chord whose action
+//! is a tap-hold pressed while a tap-hold key is pending), judged model-free: I1, I2 (by counting per
+//! key), "tap only after the release", and the statement's timing with a safety margin.
 
 use super::c04::util::*;
 use crate::core::rng::Rng;
@@ -15,6 +23,9 @@ use crate::core::sim::{code_name, render_hist, Ev, Sim};
 use crate::core::{CaseOut, Check, Ctx, Tier};
 use serde_json::{json, Value};
 use std::collections::VecDeque;
+
+#[path = "c05_multi.rs"]
+pub mod multi;
 
 pub struct C05Check;
 pub static C05: C05Check = C05Check;
@@ -329,6 +340,13 @@ fn no_model() -> bool {
     *V.get_or_init(|| std::env::var("KV_C05_NO_MODEL").map(|v| v == "1").unwrap_or(false))
 }
 
+
+/// development aid: with KV_C05_ONLY_MULTI=1 parts 1 and 2 are skipped (the floors then fail, so such a
+/// run is never "held"; never set in registered runs)
+fn only_multi() -> bool {
+    static V: std::sync::OnceLock<bool> = std::sync::OnceLock::new();
+    *V.get_or_init(|| std::env::var("KV_C05_ONLY_MULTI").map(|v| v == "1").unwrap_or(false))
+}
 
 struct Lock {
     p: P,
@@ -991,36 +1009,58 @@ impl Check for C05Check {
         "C05"
     }
     fn n_cases(&self, ctx: &Ctx) -> u64 {
-        n_exh_cases(ctx.tier) + n_random(ctx.tier)
+        n_exh_cases(ctx.tier) + n_random(ctx.tier) + multi::n_sys_cases(ctx.tier) + multi::n_rand_cases(ctx.tier)
     }
     fn describe(&self, ctx: &Ctx, idx: u64) -> Value {
         if idx < n_exh_cases(ctx.tier) {
             let p = param_sets(ctx.tier)[(idx / 9) as usize];
             json!({"part": "exhaustive", "config": p.render(), "first_two_keys": [(idx % 9) / 3, idx % 3], "max_events": exh_n(ctx.tier, p.h), "gaps": gapvals(p.h)})
-        } else {
+        } else if idx < n_exh_cases(ctx.tier) + n_random(ctx.tier) {
             let (p, hs) = self.random_case(ctx, idx);
             json!({"part": "random-two-tap-holds", "config": p.render(), "histories": hs.iter().map(|h| render_hist(h)).collect::<Vec<_>>()})
+        } else {
+            let j = idx - n_exh_cases(ctx.tier) - n_random(ctx.tier);
+            if j < multi::n_sys_cases(ctx.tier) {
+                multi::describe_sys(ctx.tier, j)
+            } else {
+                multi::describe_rand(ctx, j - multi::n_sys_cases(ctx.tier))
+            }
         }
     }
     fn run_case(&self, ctx: &Ctx, idx: u64) -> CaseOut {
         let mut out = CaseOut::new();
+        if only_multi() && idx < n_exh_cases(ctx.tier) + n_random(ctx.tier) {
+            return out;
+        }
         if idx < n_exh_cases(ctx.tier) {
             self.run_exhaustive(ctx, idx, &mut out);
-        } else {
+        } else if idx < n_exh_cases(ctx.tier) + n_random(ctx.tier) {
             self.run_random(ctx, idx, &mut out);
+        } else {
+            let j = idx - n_exh_cases(ctx.tier) - n_random(ctx.tier);
+            if j < multi::n_sys_cases(ctx.tier) {
+                multi::run_sys(ctx, j, &mut out);
+            } else {
+                multi::run_rand(ctx, j - multi::n_sys_cases(ctx.tier), &mut out);
+            }
         }
         out
     }
     fn rule(&self) -> String {
-        "Part 1 (exhaustive, seed-independent): config (defsrc a b c), a = one tap-hold key whose tap / hold / timeout actions are the distinct witness keys x / y / z, b (the listed key of the -keys variants) and c plain. All 7 variants x H in {3,40} (thorough also 1) x tap-repress window {0, H+1} x concurrent-tap-hold {no,yes} x rapid-event-delay {5,0}; for each, EVERY physically consistent schedule of 2..=N events over {a,b,c} (N = 5 for H<=3, 4 for H=40 in quick; 6 / 5 in thorough) with every inter-event gap in {0,1,H-1,H,H+1}, keys still down released H+2 ticks after the last event. Judged: I3 per-tick equality with the tap-hold reference model; I1/I2 on the OS stream (the sequence of output presses, mapped back to their source key, equals the sequence of input presses: exactly one witness per tap-hold press, nothing overtakes a pending decision, buffered keys replayed in order, none lost/duplicated; no re-press; everything up and the layout empty after the drain); and for schedules that start 'press a, g ticks, release a' the statement's no-other-input clause directly (tap iff g < H at tick g+1, else hold/timeout action at tick H+1; appendix A deductions for concurrent-tap-hold). Part 2 (random): two tap-hold keys (a -> x/y/z, d -> 1/2/3) of random variants, H in {1,2,3,7,20,40}, random windows, with b and c plain; 4 random consistent histories of 12-61 events with gaps around both timeouts; judged by I1/I2 only (no model). distinct_nontrivial = (parameter set, key sequence) for part 1, parameter tuple for part 2.".into()
+        "Part 1 (exhaustive, seed-independent): config (defsrc a b c), a = one tap-hold key whose tap / hold / timeout actions are the distinct witness keys x / y / z, b (the listed key of the -keys variants) and c plain. All 7 variants x H in {3,40} (thorough also 1) x tap-repress window {0, H+1} x concurrent-tap-hold {no,yes} x rapid-event-delay {5,0}; for each, EVERY physically consistent schedule of 2..=N events over {a,b,c} (N = 5 for H<=3, 4 for H=40 in quick; 6 / 5 in thorough) with every inter-event gap in {0,1,H-1,H,H+1}, keys still down released H+2 ticks after the last event. Judged: I3 per-tick equality with the tap-hold reference model; I1/I2 on the OS stream (the sequence of output presses, mapped back to their source key, equals the sequence of input presses: exactly one witness per tap-hold press, nothing overtakes a pending decision, buffered keys replayed in order, none lost/duplicated; no re-press; everything up and the layout empty after the drain); and for schedules that start 'press a, g ticks, release a' the statement's no-other-input clause directly (tap iff g < H at tick g+1, else hold/timeout action at tick H+1; appendix A deductions for concurrent-tap-hold). Part 2 (random): two tap-hold keys (a -> x/y/z, d -> 1/2/3) of random variants, H in {1,2,3,7,20,40}, random windows, with b and c plain; 4 random consistent histories of 12-61 events with gaps around both timeouts; judged by I1/I2 only (no model). \
+Parts 3 and 4: SEVERAL tap-holds undecided at the same time (kanata's extra waiting list), three families: 'chord-group' = keys a s d of one defchords group whose single-key entries are tap-holds (distinct witnesses each) plus a subset of the chords (a s) (s d) (a d) (a s d) on plain keys, a stand-alone tap-hold key f, plain b c - keys pressed within the chord timeout that form no chord decompose into their tap-holds, which are then pending together; 'switch' = key a with a switch of 2-3 fallthrough cases that are tap-holds (two tap-holds directly in one multi are refused by the parser), key d a tap-hold or a 2-case switch, plain b c; 'chords-v2' = defchordsv2 chord (a s) whose action is a tap-hold (all-released / first-release), stand-alone tap-hold keys d f, plain b c, concurrent-tap-hold yes. Part 3 (systematic, seed-independent): per family, chord timeout 4, a short (8; 16 for chords-v2) and a long (30) hold timeout on the two tap-holds that can be pending together, in both assignments, variant pairs (plain, plain) and every other variant (quick: press, release, release-keys) paired with a plain tap-hold in both positions, concurrent-tap-hold no/yes: EVERY consistent schedule of 2..=5 events (thorough: 6 for the plain pair) over the two tap-hold units and plain key b with every gap in {0,1,6,9,31}, keys still down released 33 ticks after the last event. Part 4 (random): random family member (variants, H in {2,3,7,12,20,40}, tap-repress windows, chord timeout {4,9,25}, rapid-event-delay {5,0,1}, concurrent on/off, defined chords), 4 random consistent histories of 8-47 events over all 4-6 keys with gaps around the timeouts. Judged for parts 3/4, model-free, by counting on the OS stream: every physical key has lanes (what one press can turn into: the witnesses of its tap-hold, the key itself, a chord it takes part in); per lane as many outputs as presses (I1: exactly one tap/hold/timeout witness per tap-hold press and per switch case; nothing lost or duplicated); when a plain key is output, every press of every other key made before it has produced its output (I2: nothing overtakes a pending decision, also not the decision of the SECOND pending tap-hold; buffered keys in order); a witness is not output before plain keys pressed before it; no output before its press, no re-press, everything up and the layout empty after the drain; a tap-hold without tap-repress window and listed keys is resolved to tap only after its release was injected; statement timing with margin: plain tap-hold, concurrent-tap-hold off, released >= 4 ticks (+ chord timeout for chord-group keys) before H => tap; press not queued behind anything and held >= H+4 => not tap. distinct_nontrivial = (parameter set, key sequence) for parts 1 and 3, parameter tuple for parts 2 and 4.".into()
     }
     fn assumptions(&self) -> Vec<String> {
         vec![
             "boundary conventions of appendix A: an event injected after p ticks is first seen by tick p+1; hold/timeout fires in tick p+H+1 (p+H with concurrent-tap-hold, which deducts the time spent queued); tap iff the release arrives < H ticks after the press (H-1 with concurrent-tap-hold); the model encodes these and detects changes of them".into(),
             "tap-hold-except-keys: per the guide nothing is output until the release or another key press, so the hold action chosen by timeout appears at the release".into(),
-            "fewer than 32 events pending: exhaustive schedules have at most 6 events; the random driver lets time pass whenever the layout queue reaches 27 entries (the realized history is recorded)".into(),
-            "tap, hold and timeout actions are plain distinct keys; nested tap-holds, chords and tap-hold inside multi are not generated; in part 2 (two tap-hold keys) only the model-free invariants I1/I2 are judged".into(),
-            "one kanata instance runs all schedules of an exhaustive case, each followed by a drain until the model is quiescent; any disagreement is re-judged on a fresh instance and minimised".into(),
+            "fewer than 32 events pending: exhaustive schedules have at most 6 events; the random drivers let time pass whenever the layout queue reaches 27 (parts 3/4: 24) entries (the realized history is recorded)".into(),
+            "tap, hold and timeout actions are plain distinct keys; nested tap-holds are not generated; in parts 2-4 no reference model is used, only the model-free clauses listed in the rule".into(),
+            "one kanata instance runs all schedules of an exhaustive / systematic case, each followed by a drain until quiescent; any disagreement is re-judged on a fresh instance and minimised".into(),
+            "parts 3/4, several tap-holds pending together: the guide does not say in which order two concurrently pending tap-holds are resolved, nor where a chord's output goes relative to them, so the relative order of two witnesses, and the position of chord outputs (defchords chords on plain keys, keys a/s of a v2 chord typed outside the chord), is not judged - only their counts; the order clauses are judged for the plain keys b, c against everything, and for witnesses against plain keys pressed before them".into(),
+            "parts 3/4, timing: with concurrent-tap-hold off the guide starts the timeout of a following tap-hold only when the previous one expires, and tap-holds started from a switch case or a decomposed chord do not deduct queueing time the same way; therefore 'held past H => not tap' is judged only for presses injected while nothing was queued, pending or paused, 'released before H => tap' only for the plain variant with concurrent-tap-hold off and with a margin of 4 ticks (+ the chord timeout for chord-group keys, + 3 for switch cases), and exact decision ticks are not judged in these families".into(),
+            "chords-v2 family: a chord's action is started by the chord machinery, not from the input queue, so a witness of the chord's tap-hold may legitimately appear before plain keys that are still queued behind another pending decision (not judged); a new activation of the same chord while the previous one's witness key is still down (its release is queued behind a pending decision) would press the same key twice, which no OS stream can show - the driver therefore presses the chord's keys again only after the previous activation has been output and released (time is let pass, the realized history is recorded); a chord pressed less than chords-v2-min-idle (5 ms) after another key is documented to be typed as plain keys and is accounted as such".into(),
+            "known finding C05:tap-before-release:other-chord-group-key-released-while-press-queued (findings/C05-chord-group-stale-release.md): the signature is used only when the release of another key of the chord group was injected between the press and its early tap; every other early tap keeps the live signature C05:tap-before-release".into(),
         ]
     }
     fn floors(&self, ctx: &Ctx) -> Vec<(&'static str, u64)> {
@@ -1036,6 +1076,27 @@ impl Check for C05Check {
             ("quick_repress_taps", 1_000),
             ("solo_statement_checks", 200),
             ("max_buffered_behind_one_decision", 3),
+            // parts 3 / 4: several tap-holds undecided at the same time
+            ("schedules_multi_pending_systematic", ctx.tier.sel(3_000_000, 30_000_000)),
+            ("schedules_multi_pending_random", ctx.tier.sel(5_000, 100_000)),
+            ("max_waiting_depth", 3),
+            ("schedules_with_two_tap_holds_pending_chord-group", 100_000),
+            ("schedules_with_two_tap_holds_pending_switch", 500_000),
+            ("schedules_with_two_tap_holds_pending_chords-v2", 50_000),
+            ("schedules_with_three_tap_holds_pending", ctx.tier.sel(200, 4_000)),
+            // the primary waiting slot is empty, another tap-hold is still undecided and input is queued, for longer than the input pause
+            ("schedules_input_queued_behind_extra_only_chord-group", 10_000),
+            ("schedules_input_queued_behind_extra_only_switch", 100_000),
+            ("schedules_input_queued_behind_extra_only_chords-v2", 10_000),
+            ("tap_hold_presses_multi_pending_families", 5_000_000),
+            ("multi_outcome_tap", 1_000_000),
+            ("multi_outcome_hold", 1_000_000),
+            ("multi_outcome_timeout_action", ctx.tier.sel(2_000, 40_000)),
+            ("multi_chord_outputs", ctx.tier.sel(200, 4_000)),
+            ("multi_order_checks", 10_000_000),
+            ("multi_tap_after_release_checks", 1_000_000),
+            ("multi_timing_tap_checks", 300_000),
+            ("multi_timing_hold_checks", 1_000_000),
         ]
     }
     fn exhaustive(&self, _ctx: &Ctx) -> bool {
